@@ -88,6 +88,9 @@ class HA:
 
     def run(self):
         q = self.s.cmd('async_run 0')
+        if q.rc == 0 and (q.get('handle') == 'stale' or q.get('waitingstale')):
+            # the caller's variables were poisoned before the call: with KSI_OK both have to be set (no finished request: handle NULL)
+            self.viol('run-leaves-out-parameter-unset', 'KSI_AsyncService_run on the HA service returned KSI_OK without setting its %s out-parameter: a caller that reuses the variable takes the previous handle for a returned request a second time' % ('handle' if q.get('handle') == 'stale' else 'waiting-count'))
         self.trace.append('run->%s' % ({k: q[k] for k in ('state', 'tag', 'herr') if k in q} if q.get('handle') == '1' else '-'))
         return q
 
